@@ -81,6 +81,7 @@ inline bool admits_impl(const xdb::Form& G, const XInst& x, bool with_implicit) 
   for (const xdb::Op& d : G.ops) {
     if (!with_implicit && !is_explicit(d)) continue;
     const Opnd& o = x.ops[j++];
+    if (o.kind == Opnd::kRel) { if (!d.is_rel()) return false; continue; }
     if (o.kind == Opnd::kReg) {
       if (!d.is_reg()) return false;
       RC rc; int fixed;
@@ -94,7 +95,7 @@ inline bool admits_impl(const xdb::Form& G, const XInst& x, bool with_implicit) 
       bool vs = is_vec(o.mem.index.rc);
       if (vs != !d.vsibReg.empty()) return false;
       if (vs) { const char* nm = o.mem.index.rc == RC::Xmm ? "xmm" : o.mem.index.rc == RC::Ymm ? "ymm" : "zmm"; if (d.vsibReg != nm) return false; }
-      if (o.mem.bcst > 0) { if (d.bcstSize <= 0 || d.bcstSize != o.mem.size_bits) return false; }
+      if (o.mem.bcst > 0) { if (d.bcstSize <= 0 || (o.mem.size_bits != 0 && d.bcstSize != o.mem.size_bits)) return false; }
       else if (o.mem.size_bits != 0 && d.memSize > 0 && d.memSize != o.mem.size_bits) return false;
       if (!d.memSegment.empty()) {
         bool is_si = d.memRegOnly.find("si") != std::string::npos, is_bx = d.memRegOnly.find("bx") != std::string::npos;
